@@ -3,6 +3,7 @@ namespace Igris.C19
 open Igris.Proto
 set_option linter.unusedSimpArgs false
 set_option linter.unusedVariables false
+set_option linter.unnecessarySimpa false
 
 /-! ## generic list facts -/
 
@@ -680,5 +681,403 @@ theorem strip_exact (w : Byte → Bool) (s : Str) :
     unfold strip at hc
     rw [List.getLast?_reverse] at hc
     exact head?_dropWhile_not w _ c hc
+
+
+/-! ## argv splitting -/
+
+theorem strchrHit_ws (c : Byte) : strchrHit wsArgv c = (c == NUL || isWsArgv c) := by
+  simp only [strchrHit, wsArgv, isWsArgv, List.contains, List.elem, Bool.or_assoc]
+  cases (c == SP) <;> cases (c == CR) <;> cases (c == NL) <;> cases (c == TAB) <;> simp
+
+theorem strchrHit_ws_of_ne (c : Byte) (h : c ≠ NUL) : strchrHit wsArgv c = isWsArgv c := by
+  rw [strchrHit_ws]; simp [h]
+
+theorem isWsArgv_NUL : isWsArgv NUL = false := by decide
+
+theorem skipWsZ_eq (text junk : Str) (hn : NUL ∉ text) :
+    skipWsZ (text ++ NUL :: junk) = some (text.dropWhile isWsArgv ++ NUL :: junk) := by
+  induction text with
+  | nil => simp [skipWsZ]
+  | cons c cs ih =>
+    have hc : c ≠ NUL := fun e => hn (by simp [e])
+    have hcs : NUL ∉ cs := fun m => hn (by simp [m])
+    simp only [List.cons_append, skipWsZ, bne_iff_ne, ne_eq, hc, not_false_eq_true, ↓reduceIte,
+      strchrHit_ws_of_ne c hc, List.dropWhile_cons]
+    split
+    · exact ih hcs
+    · rfl
+
+theorem scanTokZ_eq (text junk : Str) (hn : NUL ∉ text) :
+    scanTokZ (text ++ NUL :: junk) = some (text.dropWhile (fun c => !isWsArgv c) ++ NUL :: junk) := by
+  induction text with
+  | nil => simp [scanTokZ, strchrHit_ws]
+  | cons c cs ih =>
+    have hc : c ≠ NUL := fun e => hn (by simp [e])
+    have hcs : NUL ∉ cs := fun m => hn (by simp [m])
+    simp only [List.cons_append, scanTokZ, strchrHit_ws_of_ne c hc, List.dropWhile_cons]
+    by_cases hw : isWsArgv c = true
+    · simp [hw]
+    · have hw' : isWsArgv c = false := by simpa using hw
+      simp [hw', hc, ih hcs]
+
+theorem drop_append_add (A m : Str) (o : Nat) : (A ++ m).drop (A.length + o) = m.drop o := by
+  induction A with
+  | nil => simp
+  | cons a as ih =>
+    have : (a :: as).length + o = (as.length + o) + 1 := by simp; omega
+    rw [this]; simpa using ih
+
+theorem cstrAt_shift (A m : Str) (o : Nat) : cstrAt (A ++ m) (o + A.length) = cstrAt m o := by
+  unfold cstrAt
+  rw [Nat.add_comm, drop_append_add]
+
+theorem takeWhile_ne_append (tok rest : Str) (x : Byte) (ht : x ∉ tok) :
+    (tok ++ x :: rest).takeWhile (· != x) = tok := by
+  induction tok with
+  | nil => simp
+  | cons a as ih =>
+    have ha : a ≠ x := fun e => ht (by simp [e])
+    have has : x ∉ as := fun m => ht (by simp [m])
+    simp [List.takeWhile_cons, ha, ih has]
+
+theorem cstrAt_token (pre tok rest : Str) (ht : NUL ∉ tok) :
+    cstrAt (pre ++ tok ++ NUL :: rest) pre.length = some tok := by
+  unfold cstrAt
+  have : (pre ++ tok ++ NUL :: rest).drop pre.length = tok ++ NUL :: rest := by
+    rw [List.append_assoc]; simpa using drop_append_add pre (tok ++ NUL :: rest) 0
+  rw [this]
+  simp only [List.contains_eq_mem, List.mem_append, List.mem_cons, true_or, or_true, decide_true, ↓reduceIte]
+  rw [takeWhile_ne_append tok rest NUL ht]
+
+theorem argStrings_shift (A m : Str) (offs : List Nat) :
+    argStrings (A ++ m) (offs.map (· + A.length)) = argStrings m offs := by
+  induction offs with
+  | nil => rfl
+  | cons o os ih => simp only [List.map_cons, argStrings, cstrAt_shift, ih]
+
+theorem argStrings_length (m : Str) (offs : List Nat) (r : List Str) (h : argStrings m offs = some r) :
+    r.length = offs.length := by
+  induction offs generalizing r with
+  | nil => simp [argStrings] at h; subst h; rfl
+  | cons o os ih =>
+    simp only [argStrings] at h
+    cases h1 : cstrAt m o with
+    | none => simp [h1] at h
+    | some s =>
+      cases h2 : argStrings m os with
+      | none => simp [h1, h2] at h
+      | some r' =>
+        simp [h1, h2] at h
+        subst h
+        simp [ih r' h2]
+
+theorem mem_of_dropWhile (p : Byte → Bool) (l : Str) (x : Byte) (h : x ∈ l.dropWhile p) : x ∈ l := by
+  have := @List.takeWhile_append_dropWhile _ p l
+  rw [← this]; exact List.mem_append_right _ h
+
+theorem mem_of_takeWhile (p : Byte → Bool) (l : Str) (x : Byte) (h : x ∈ l.takeWhile p) : x ∈ l := by
+  have := @List.takeWhile_append_dropWhile _ p l
+  rw [← this]; exact List.mem_append_left _ h
+
+theorem argvSplitGo_spec (argcmax : Nat) (f : Nat) (text junk : Str) (argc : Nat)
+    (hn : NUL ∉ text) (hf : text.length < f) :
+    ∃ r, argvSplitGo argcmax f (text ++ NUL :: junk) argc = some r
+      ∧ r.argc = argc + r.argv.length
+      ∧ argStrings r.mem r.argv = some ((runs isWsArgv text).take (argcmax - argc))
+      ∧ r.mem.length = (text ++ NUL :: junk).length := by
+  induction f generalizing text argc with
+  | zero => omega
+  | succ f ih =>
+    have hsplit := @List.takeWhile_append_dropWhile _ isWsArgv text
+    rw [argvSplitGo]
+    simp only [skipWsZ_eq text junk hn, Option.bind_eq_bind, Option.bind_some, bind]
+    rw [runs_unfold]
+    cases ht1 : text.dropWhile isWsArgv with
+    | nil =>
+      simp
+      rfl
+    | cons c cs =>
+      have hcws : isWsArgv c = false := dropWhile_cons_head _ text c cs ht1
+      have hn1 : NUL ∉ c :: cs := fun m => hn (mem_of_dropWhile isWsArgv text NUL (by rw [ht1]; exact m))
+      have hcn : c ≠ NUL := fun e => hn1 (by simp [e])
+      have hcn' : (c == NUL) = false := by simpa using hcn
+      simp only [List.cons_append, List.head?_cons, Option.bind_some, hcn', Bool.false_or]
+      by_cases hmax : argc ≥ argcmax
+      · have : argcmax - argc = 0 := by omega
+        simp [hmax, this]
+        rfl
+      · simp only [hmax, decide_false, Bool.false_eq_true, ↓reduceIte]
+        have hs2 := scanTokZ_eq (c :: cs) junk hn1
+        simp only [List.cons_append] at hs2
+        simp only [hs2, Option.bind_some]
+        have hsplit2 := @List.takeWhile_append_dropWhile _ (fun c => !isWsArgv c) (c :: cs)
+        cases ht2 : (c :: cs).dropWhile (fun c => !isWsArgv c) with
+        | nil =>
+          have htok : (c :: cs).takeWhile (fun c => !isWsArgv c) = c :: cs := by
+            rw [ht2, List.append_nil] at hsplit2; exact hsplit2
+          generalize hpre : text.takeWhile isWsArgv = pre at *
+          have htext : text = pre ++ c :: cs := by rw [← hsplit, ht1]
+          subst htext
+          simp only [List.nil_append, List.head?_cons, Option.bind_some, BEq.rfl, ↓reduceIte]
+          refine ⟨_, rfl, ?_, ?_, ?_⟩
+          · simp
+          · have hlen : (pre ++ c :: cs ++ NUL :: junk).length - (c :: (cs ++ NUL :: junk)).length = pre.length := by
+              simp only [List.length_append, List.length_cons]; omega
+            have h1 : argcmax - argc = (argcmax - argc - 1) + 1 := by omega
+            simp only [hlen, argStrings, htok, runs_nil]
+            rw [h1, List.take_succ_cons, List.take_nil]
+            have := cstrAt_token pre (c :: cs) junk hn1
+            simp only [List.append_assoc, List.cons_append] at this ⊢
+            simp [this]
+          · rfl
+        | cons w t3 =>
+          generalize htokd : (c :: cs).takeWhile (fun c => !isWsArgv c) = tok at *
+          have hww : isWsArgv w = true := by
+            have := dropWhile_cons_head _ (c :: cs) w t3 ht2
+            simpa using this
+          have hw_mem : w ∈ c :: cs := mem_of_dropWhile _ _ w (by rw [ht2]; simp)
+          have hwn : w ≠ NUL := fun e => hn1 (e ▸ hw_mem)
+          have hwn' : (w == NUL) = false := by simpa using hwn
+          have hn3 : NUL ∉ t3 := fun m => hn1 (mem_of_dropWhile _ _ NUL (by rw [ht2]; simp [m]))
+          have hntok : NUL ∉ tok := fun m => hn1 (mem_of_takeWhile _ _ NUL (by rw [htokd]; exact m))
+          generalize hpre : text.takeWhile isWsArgv = pre at *
+          have htext : text = pre ++ tok ++ w :: t3 := by
+            rw [← hsplit, ht1, ← hsplit2, ht2, List.append_assoc]
+          subst htext
+          have hf3 : t3.length < f := by
+            simp only [List.length_append, List.length_cons] at hf; omega
+          obtain ⟨r', hr', hargc', hstr', hlen'⟩ := ih t3 (argc + 1) hn3 hf3
+          simp only [List.cons_append, List.head?_cons, Option.bind_some, hwn', Bool.false_eq_true, ↓reduceIte,
+            strchrHit_ws_of_ne w hwn, hww, List.tail_cons, hr']
+          refine ⟨_, rfl, ?_, ?_, ?_⟩
+          · simp [hargc']; omega
+          · have hcs : (c :: cs).length = tok.length + (t3.length + 1) := by
+              rw [← hsplit2, ht2]; simp
+            have hl1 : (pre ++ tok ++ w :: t3 ++ NUL :: junk).length - (c :: (cs ++ NUL :: junk)).length = pre.length := by
+              simp only [List.length_append, List.length_cons] at hcs ⊢; omega
+            have hl2 : (pre ++ tok ++ w :: t3 ++ NUL :: junk).length - (w :: (t3 ++ NUL :: junk)).length + 1
+                = (pre ++ tok ++ [NUL]).length := by
+              simp only [List.length_append, List.length_cons, List.length_nil]; omega
+            have htake : List.take ((pre ++ tok ++ [NUL]).length - 1) (pre ++ tok ++ w :: t3 ++ NUL :: junk) = pre ++ tok := by
+              rw [List.append_assoc (pre ++ tok)]
+              exact List.take_left' (by simp)
+            have hruns : runs isWsArgv (w :: t3) = runs isWsArgv t3 := by
+              simp [runs, runsGo, hww]
+            have h1 : argcmax - argc = (argcmax - (argc + 1)) + 1 := by omega
+            simp only [hl1, hl2, htake, hruns]
+            rw [h1, List.take_succ_cons]
+            have hmem : pre ++ tok ++ NUL :: r'.mem = (pre ++ tok ++ [NUL]) ++ r'.mem := by simp
+            simp only [argStrings, cstrAt_token pre tok r'.mem hntok, Option.bind_some, bind]
+            rw [hmem, argStrings_shift, hstr']
+            rfl
+          · simp only [List.length_append, List.length_cons, hlen', List.length_take]
+            omega
+
+theorem cstrAtN_shift (A m : Str) (o : Nat) : cstrAtN (A ++ m) (o + A.length) = cstrAtN m o := by
+  unfold cstrAtN
+  rw [Nat.add_comm, drop_append_add]
+
+theorem cstrAtN_token (pre tok rest : Str) (ht : NUL ∉ tok) :
+    cstrAtN (pre ++ tok ++ NUL :: rest) pre.length = tok := by
+  unfold cstrAtN
+  have : (pre ++ tok ++ NUL :: rest).drop pre.length = tok ++ NUL :: rest := by
+    rw [List.append_assoc]; simpa using drop_append_add pre (tok ++ NUL :: rest) 0
+  rw [this, takeWhile_ne_append tok rest NUL ht]
+
+theorem cstrAtN_last (pre tok : Str) (ht : NUL ∉ tok) : cstrAtN (pre ++ tok) pre.length = tok := by
+  unfold cstrAtN
+  have : (pre ++ tok).drop pre.length = tok := by simpa using drop_append_add pre tok 0
+  rw [this]
+  induction tok with
+  | nil => rfl
+  | cons a as ih =>
+    have ha : a ≠ NUL := fun e => ht (by simp [e])
+    simp only [List.takeWhile_cons, bne_iff_ne, ne_eq, ha, not_false_eq_true, ↓reduceIte]
+    congr 1
+    exact ih (fun m => ht (by simp [m])) (by simpa using drop_append_add pre as 0)
+
+theorem strchrHit_NUL (s : Str) : strchrHit s NUL = true := by simp [strchrHit]
+
+theorem argvSplitNGo_spec (argcmax : Nat) (f : Nat) (data : Str) (argc : Nat) (hf : data.length < f) :
+    ∃ r, argvSplitNGo argcmax f data argc = some r
+      ∧ r.argc = argc + r.argv.length
+      ∧ r.argv.map (cstrAtN r.mem) = (runs (strchrHit wsArgv) data).take (argcmax - argc)
+      ∧ r.mem.length = data.length := by
+  induction f generalizing data argc with
+  | zero => omega
+  | succ f ih =>
+    have hsplit := @List.takeWhile_append_dropWhile _ (strchrHit wsArgv) data
+    rw [argvSplitNGo]
+    simp only
+    rw [runs_unfold]
+    cases ht1 : data.dropWhile (strchrHit wsArgv) with
+    | nil => exact ⟨_, rfl, by simp, by simp, rfl⟩
+    | cons c cs =>
+      have hch : strchrHit wsArgv c = false := dropWhile_cons_head _ data c cs ht1
+      have hcn : c ≠ NUL := fun e => by rw [e, strchrHit_NUL] at hch; cases hch
+      have hcn' : (c == NUL) = false := by simpa using hcn
+      simp only [hcn', Bool.false_or]
+      by_cases hmax : argc ≥ argcmax
+      · have : argcmax - argc = 0 := by omega
+        simp only [hmax, decide_true, ↓reduceIte, this, List.take_zero]
+        exact ⟨_, rfl, by simp, by simp, rfl⟩
+      · simp only [hmax, decide_false, Bool.false_eq_true, ↓reduceIte]
+        have hsplit2 := @List.takeWhile_append_dropWhile _ (fun c => !strchrHit wsArgv c) (c :: cs)
+        have h1 : argcmax - argc = (argcmax - (argc + 1)) + 1 := by omega
+        generalize htokd : (c :: cs).takeWhile (fun c => !strchrHit wsArgv c) = tok at *
+        have hntok : NUL ∉ tok := by
+          intro m
+          have := mem_takeWhile_sat (fun c => !strchrHit wsArgv c) (c :: cs) NUL (by rw [htokd]; exact m)
+          simp [strchrHit_NUL] at this
+        generalize hpre : data.takeWhile (strchrHit wsArgv) = pre at *
+        cases ht2 : (c :: cs).dropWhile (fun c => !strchrHit wsArgv c) with
+        | nil =>
+          have htok : tok = c :: cs := by rw [ht2, List.append_nil] at hsplit2; exact hsplit2
+          have hdata : data = pre ++ tok := by rw [← hsplit, ht1, htok]
+          subst hdata
+          refine ⟨_, rfl, by simp, ?_, rfl⟩
+          have hl : (pre ++ tok).length - (c :: cs).length = pre.length := by
+            rw [← htok]; simp
+          simp only [List.map_cons, List.map_nil, hl, cstrAtN_last pre tok hntok, runs_nil]
+          rw [h1, List.take_succ_cons, List.take_nil]
+        | cons w t3 =>
+          have hww : strchrHit wsArgv w = true := by
+            have := dropWhile_cons_head _ (c :: cs) w t3 ht2
+            simpa using this
+          have hdata : data = pre ++ tok ++ w :: t3 := by
+            rw [← hsplit, ht1, ← hsplit2, ht2, List.append_assoc]
+          subst hdata
+          have hf3 : t3.length < f := by
+            simp only [List.length_append, List.length_cons] at hf; omega
+          obtain ⟨r', hr', hargc', hstr', hlen'⟩ := ih t3 (argc + 1) hf3
+          simp only [hww, ↓reduceIte, hr']
+          refine ⟨_, rfl, ?_, ?_, ?_⟩
+          · simp [hargc']; omega
+          · have hcs : (c :: cs).length = tok.length + (t3.length + 1) := by
+              rw [← hsplit2, ht2]; simp
+            have hl1 : (pre ++ tok ++ w :: t3).length - (c :: cs).length = pre.length := by
+              simp only [List.length_append, List.length_cons] at hcs ⊢; omega
+            have hl2 : (pre ++ tok ++ w :: t3).length - (w :: t3).length + 1 = (pre ++ tok ++ [NUL]).length := by
+              simp only [List.length_append, List.length_cons, List.length_nil]; omega
+            have htake : List.take ((pre ++ tok ++ [NUL]).length - 1) (pre ++ tok ++ w :: t3) = pre ++ tok :=
+              List.take_left' (by simp)
+            have hruns : runs (strchrHit wsArgv) (w :: t3) = runs (strchrHit wsArgv) t3 := by
+              simp [runs, runsGo, hww]
+            simp only [hl1, hl2, htake, hruns]
+            rw [h1, List.take_succ_cons]
+            have hmem : pre ++ tok ++ NUL :: r'.mem = (pre ++ tok ++ [NUL]) ++ r'.mem := by simp
+            simp only [List.map_cons, cstrAtN_token pre tok r'.mem hntok, List.map_map]
+            congr 1
+            rw [← hstr']
+            apply List.map_congr_left
+            intro o _
+            simp only [Function.comp, hmem, cstrAtN_shift]
+          · simp only [List.length_append, List.length_cons, hlen', List.length_take]
+            omega
+
+
+/-! ## command lookup -/
+
+theorem findCmd_none_iff (a0 : Str) (tbl : List Str) (k : Nat) : findCmd a0 tbl k = none ↔ a0 ∉ tbl := by
+  induction tbl generalizing k with
+  | nil => simp [findCmd]
+  | cons n rest ih =>
+    by_cases h : n = a0
+    · subst h; simp [findCmd]
+    · have h' : ¬ a0 = n := fun e => h e.symm
+      simp [findCmd, h, h', ih]
+
+theorem findCmd_some_spec (a0 : Str) (tbl : List Str) (k j : Nat) (h : findCmd a0 tbl k = some j) :
+    ∃ i, j = k + i ∧ tbl[i]? = some a0 ∧ ∀ i', i' < i → tbl[i']? ≠ some a0 := by
+  induction tbl generalizing k with
+  | nil => simp [findCmd] at h
+  | cons n rest ih =>
+    by_cases hn : n = a0
+    · subst hn
+      simp [findCmd] at h
+      exact ⟨0, by omega, by simp, fun i' hi => by omega⟩
+    · simp only [findCmd, beq_iff_eq, hn, ↓reduceIte] at h
+      obtain ⟨i, hj, hi, hfirst⟩ := ih (k + 1) h
+      refine ⟨i + 1, by omega, by simpa using hi, fun i' hi' => ?_⟩
+      cases i' with
+      | zero => simpa using hn
+      | succ i' => simpa using hfirst i' (by omega)
+
+theorem findCmdTables_none_iff (a0 : Str) (tables : List (List Str × Nat)) (t : Nat) :
+    findCmdTables a0 tables t = none ↔ ∀ e ∈ tables, a0 ∉ e.1 := by
+  induction tables generalizing t with
+  | nil => simp [findCmdTables]
+  | cons e rest ih =>
+    obtain ⟨tbl, drop⟩ := e
+    cases hf : findCmd a0 tbl 0 with
+    | none =>
+      have := (findCmd_none_iff a0 tbl 0).mp hf
+      simp [findCmdTables, hf, ih, this]
+    | some k =>
+      have hm : a0 ∈ tbl := by
+        have := findCmd_none_iff a0 tbl 0
+        rw [hf] at this
+        simpa using this
+      simp [findCmdTables, hf, hm]
+
+theorem findCmdTables_some_spec (a0 : Str) (tables : List (List Str × Nat)) (t0 h drop : Nat)
+    (hh : findCmdTables a0 tables t0 = some (h, drop)) :
+    ∃ t i tbl, h = 4 * (t0 + t) + i ∧ tables[t]? = some (tbl, drop) ∧ tbl[i]? = some a0
+      ∧ (∀ i', i' < i → tbl[i']? ≠ some a0)
+      ∧ (∀ t', t' < t → ∀ e, tables[t']? = some e → a0 ∉ e.1) := by
+  induction tables generalizing t0 with
+  | nil => simp [findCmdTables] at hh
+  | cons e rest ih =>
+    obtain ⟨tbl, d⟩ := e
+    cases hf : findCmd a0 tbl 0 with
+    | some k =>
+      simp only [findCmdTables, hf, Option.some.injEq, Prod.mk.injEq] at hh
+      obtain ⟨i, hk, hi, hfirst⟩ := findCmd_some_spec a0 tbl 0 k hf
+      refine ⟨0, i, tbl, by omega, by simp [hh.2], hi, hfirst, fun t' ht' => by omega⟩
+    | none =>
+      simp only [findCmdTables, hf] at hh
+      obtain ⟨t, i, tbl', hh', htab, hi, hfirst, hprev⟩ := ih (t0 + 1) hh
+      refine ⟨t + 1, i, tbl', by omega, by simpa using htab, hi, hfirst, fun t' ht' e he => ?_⟩
+      cases t' with
+      | zero =>
+        simp at he; subst he
+        exact (findCmd_none_iff a0 tbl 0).mp hf
+      | succ t' => exact hprev t' (by omega) e (by simpa using he)
+
+
+/-! ## dispatch -/
+
+theorem shellExecute_spec' (rcEmpty : Int) (text junk : Str) (tables : List (List Str × Nat))
+    (hn : NUL ∉ text) :
+    shellExecute rcEmpty (text ++ NUL :: junk) tables
+      = some (dispatchSpec rcEmpty ((runs isWsArgv text).take SSHELL_ARGCMAX) tables) := by
+  unfold shellExecute
+  cases text with
+  | nil => simp [dispatchSpec, runs, runsGo]
+  | cons c cs =>
+    have hc : c ≠ NUL := fun e => hn (by simp [e])
+    have hc' : (c == NUL) = false := by simpa using hc
+    obtain ⟨r, h1, h2, h3, h4⟩ :=
+      argvSplitGo_spec SSHELL_ARGCMAX (((c :: cs) ++ NUL :: junk).length + 1) (c :: cs) junk 0 hn
+        (by simp; omega)
+    simp only [Nat.sub_zero, Nat.zero_add] at h2 h3
+    have hlen := argStrings_length _ _ _ h3
+    simp only [List.cons_append, List.head?_cons, Option.bind_eq_bind, Option.bind_some, bind, hc',
+      Bool.false_eq_true, ↓reduceIte]
+    have h1' : argvSplit (c :: (cs ++ NUL :: junk)) SSHELL_ARGCMAX = some r := h1
+    simp only [h1', Option.bind_some, h3]
+    generalize (runs isWsArgv (c :: cs)).take SSHELL_ARGCMAX = toks at *
+    cases toks with
+    | nil =>
+      have : r.argc = 0 := by simp at hlen; omega
+      simp [this, dispatchSpec]
+    | cons t0 rest =>
+      have : r.argc ≠ 0 := by simp at hlen; omega
+      simp only [this, ↓reduceIte, dispatchSpec]
+      cases findCmdTables t0 tables 0 with
+      | none => rfl
+      | some p =>
+        obtain ⟨k, drop⟩ := p
+        simp only [h2, ← hlen]
 
 end Igris.C19
